@@ -260,7 +260,7 @@ finds the zone's SOA entry expired retires the whole zone (`denialProofPruneZone
 entry of the zone goes with it, whatever lifetime it had left. -/
 def synthReply (st : HState) (i : String) (now : Int) : HState × Option (Reply × Int) :=
   -- reply pieces: "sz"/"s<k>" for the NSEC zone, "tz"/"t<k>" for the NSEC3 zone
-  let z := zoneOf i
+  let z := if i.startsWith "x" then "p" else zoneOf i
   let zt := if z == "q" then "t" else "s"
   let k := (i.drop 1).toString
   match st.proofSoa.lookup z with
@@ -269,19 +269,25 @@ def synthReply (st : HState) (i : String) (now : Int) : HState × Option (Reply 
     if now ≥ se then
       ({ st with proofSoa := st.proofSoa.filter (·.1 != z), proofNsec := st.proofNsec.filter (fun e => zoneOf e.1 != z) }, none)
     else
-    match st.proofNsec.lookup i with
+    -- the proof entries the evaluator selects: the owner's own NSEC/NSEC3 set for a NODATA; for the
+    -- NXDOMAIN of x<k> (a name inside the span w<k> -> w<k>z) the covering set of owner k and the apex
+    -- set (pz.test. -> w1.pz.test.), which covers the wildcard *.pz.test.
+    let nx := i.startsWith "x"
+    let picks : List (String × String) := if nx then [("p" ++ k, zt ++ k), ("p0", zt ++ "0")] else [(i, zt ++ k)]
+    let found := picks.filterMap fun (key, tok) => (st.proofNsec.lookup key).map fun e => (tok, e)
+    if found.length != picks.length then (st, none) else
+    match synthServe se (found.map fun x => x.2.1) now with
     | none => (st, none)
-    | some (ne, ngen, _p, g2) =>
-      match synthServe se [ne] now with
-      | none => (st, none)
-      | some (ttl, exp) =>
-        let ns : List NsRec := [
-          { rid := (1000000 + sgen, 0), owner := zt ++ "z", ttl := ttl, kind := .soa s.a.toNat },
-          { rid := (1000000 + sgen, 1), owner := zt ++ "z", ttl := ttl, kind := .sig g.b },
-          -- an NSEC record carries its admission in its RDATA, an NSEC3 record does not (same RDATA again)
-          { rid := if zt == "t" then (4000000, k.toNat!) else (2000000 + ngen, 0), owner := zt ++ k, ttl := ttl, kind := .plain },
-          { rid := (2000000 + ngen, 1), owner := zt ++ k, ttl := ttl, kind := .sig g2.b }]
-        (st, some ({ ns := ns, synth := some (i, ttl) }, exp))
+    | some (ttl, exp) =>
+      let soaRecs : List NsRec := [
+        { rid := (1000000 + sgen, 0), owner := zt ++ "z", ttl := ttl, kind := .soa s.a.toNat },
+        { rid := (1000000 + sgen, 1), owner := zt ++ "z", ttl := ttl, kind := .sig g.b }]
+      let proofRecs : List NsRec := found.flatMap fun (tok, (_, ngen, _p, g2)) => [
+        -- an NSEC record carries its admission in its RDATA, an NSEC3 record does not (same RDATA again)
+        { rid := if zt == "t" then (4000000, (tok.drop 1).toString.toNat!) else (2000000 + ngen, 0), owner := tok, ttl := ttl, kind := .plain },
+        { rid := (2000000 + ngen, 1), owner := tok, ttl := ttl, kind := .sig g2.b }]
+      -- only a NODATA synthesis is re-recorded through an alias (aliases onto x-names are not generated)
+      (st, some ({ ns := soaRecs ++ proofRecs, nx := nx, synth := if nx then none else some (i, ttl) }, exp))
 
 def cutProofRecs (now : Int) (sTtl pTtl gTtl g2Ttl : Nat) (s g p g2 : Item) : List ProofRR :=
   [{ rr := { ttl := sTtl, kind := .soa s.a.toNat } }, { rr := { ttl := gTtl, kind := .rrsig (now + g.b * S) }, orig := g.a.toNat },
@@ -386,7 +392,7 @@ def serve (cfg : Cfg) (script : List (String × Spec)) (now : Int) :
       | (st, none) => (st, none, m0)
     else
     -- a name of the proof zone: never admitted itself; CD / ECS request trees bypass shared denial
-    if name.startsWith "p" || name.startsWith "q" then
+    if name.startsWith "p" || name.startsWith "q" || name.startsWith "x" then
       if bypass then (st, none, m0) else
       match synthReply st name now with
       | (st, some (r, exp)) => (st, some r, boundCut m0 (some exp))     -- boundRequestTo(ctx, proofExpires)
@@ -660,7 +666,7 @@ def stepHist (st : State) (w : List String) : State × String :=
         match expiryServeTTL exp now with
         | none => ({ st with h := { h with cuts := h.cuts.filter (·.1 != tok) } }, "miss")
         | some t => ({ st with h := h }, "hit " ++ tok ++ "~" ++ toString t ++ " bound=" ++ showBound (boundCut none (some exp)))
-    else if name.startsWith "p" || name.startsWith "q" then
+    else if name.startsWith "p" || name.startsWith "q" || name.startsWith "x" then
       match synthReply h name now with
       | (h, some (r, exp)) => ({ st with h := h }, "hit " ++ replyTokens r ++ " bound=" ++ showBound (boundCut none (some exp)))
       | (h, none) => ({ st with h := h }, "miss")
